@@ -254,14 +254,29 @@ func init() {
 		vc.setHeap(st, hn2, hs2, sto(h2, obj, sto(sel(h2, obj), bvLit(64, 0), ln.L[0])))
 		return Val{T: rt, L: []string{obj, bvLit(64, rvSliceV), allOnes64, allOnes64, cls(clsSlice), bvLit(64, 0), src.L[iECls], src.L[iEWid], src.L[iTTag]}}
 	})
-	reg("(reflect.Value).Index", func(vc *VC, fr *Frame, st *State, call *ssa.CallCommon, args []Val, rt types.Type) Val {
-		v, i := args[0], args[1]
+	// length of the slice a Value holds: a slice made by reflect.MakeSlice, or the slice stored in a struct field
+	rvLenOf := func(vc *VC, st *State, v Val) string {
 		hn := ghostHeapName("rvSliceLen")
 		hs := arrSort(sBV64, sBV64)
 		vc.ghostSorts[hn] = hs
-		ln := sel(vc.heapTerm(st, hn, hs), v.L[iObj])
-		vc.oblige(st, "pre@reflect.Value.Index", "range", and(eq(v.L[iMt], bvLit(64, rvSliceV)), app("bvsle", bvLit(64, 0), i.L[0]), app("bvslt", i.L[0], ln)), call.Pos(), vc.safetyProps)
-		return Val{T: rt, L: []string{v.L[iObj], bvLit(64, rvElemV), allOnes64, i.L[0], v.L[iECls], v.L[iEWid], cls(clsOther), bvLit(64, 0), bvLit(64, 0)}}
+		made := sel(vc.heapTerm(st, hn, hs), v.L[iObj])
+		field := vc.rvLoad(st, "rvLen", sBV64, v.L[iObj], cellKey(v))
+		ln := vc.define("rvlen", sBV64, ite(eq(v.L[iMt], bvLit(64, rvSliceV)), made, field))
+		vc.assume(st.cond, and(app("bvsle", bvLit(64, 0), ln), app("bvslt", ln, bvLit(64, 1<<40))))
+		return ln
+	}
+	reg("(reflect.Value).Len", func(vc *VC, fr *Frame, st *State, call *ssa.CallCommon, args []Val, rt types.Type) Val {
+		v := args[0]
+		vc.oblige(st, "pre@reflect.Value.Len", "slice", and(not(eq(v.L[iMt], bvLit(64, rvInvalid))), eq(v.L[iCls], cls(clsSlice))), call.Pos(), vc.safetyProps)
+		return Val{T: rt, L: []string{rvLenOf(vc, st, v)}}
+	})
+	reg("(reflect.Value).Index", func(vc *VC, fr *Frame, st *State, call *ssa.CallCommon, args []Val, rt types.Type) Val {
+		v, i := args[0], args[1]
+		ln := rvLenOf(vc, st, v)
+		vc.oblige(st, "pre@reflect.Value.Index", "range", and(eq(v.L[iCls], cls(clsSlice)), not(eq(v.L[iMt], bvLit(64, rvInvalid))), app("bvsle", bvLit(64, 0), i.L[0]), app("bvslt", i.L[0], ln)), call.Pos(), vc.safetyProps)
+		// elements of a made slice live in the slice object; elements of a field's slice in an object of their own
+		obj := ite(eq(v.L[iMt], bvLit(64, rvSliceV)), v.L[iObj], vc.freshConst("rvelems", sBV64))
+		return Val{T: rt, L: []string{obj, bvLit(64, rvElemV), allOnes64, i.L[0], v.L[iECls], v.L[iEWid], cls(clsOther), bvLit(64, 0), bvLit(64, 0)}}
 	})
 	reg("(reflect.Value).Interface", func(vc *VC, fr *Frame, st *State, call *ssa.CallCommon, args []Val, rt types.Type) Val {
 		v := args[0]
